@@ -6,6 +6,7 @@ import (
 	"errors"
 	"os"
 	"path/filepath"
+	"strings"
 
 	carv2 "github.com/ipld/go-car/v2"
 	"github.com/multiformats/go-multicodec"
@@ -114,6 +115,28 @@ func runC10(t *mon.T, raw json.RawMessage) {
 		}
 	}
 
+	// a null-padded source wrapped with ZeroLengthSectionAsEOF: the whole source (padding included) is the
+	// payload, the index covers the sections before the padding
+	{
+		padded := append(append([]byte{}, x...), make([]byte, 2+r.Intn(70))...)
+		var out bytes.Buffer
+		err := carv2.WrapV1(bytes.NewReader(padded), &out, append(append([]carv2.Option{}, wopts...), carv2.ZeroLengthSectionAsEOF(true))...)
+		t.Events(1)
+		t.Cover("wrap-null-padded-source")
+		if err != nil {
+			t.Violatef("WrapV1(null-padded,ZeroLengthSectionAsEOF)/valid-input/error", "WrapV1 failed: %v", err)
+		} else {
+			o := out.Bytes()
+			want := append(append([]byte{}, refcar.Pragma...), refcar.V2Header{DataOffset: 51, DataSize: uint64(len(padded)), IndexOffset: 51 + uint64(len(padded))}.Bytes()...)
+			want = append(want, padded...)
+			if len(o) < len(want) || !bytes.Equal(o[:len(want)], want) {
+				t.Violatef("WrapV1(null-padded,ZeroLengthSectionAsEOF)/container/bytes-differ", "output does not start with pragma ‖ header(51,%d,%d) ‖ unmodified source; first difference at %d", len(padded), 51+len(padded), lab.FirstDiff(o, want))
+			} else if pi, perr := refcar.ParseIndex(o[len(want):]); perr != nil || !refcar.RecordsEqual(pi.Records(), refcar.ExpectedIndexRecords(ref, codec, storeID)) {
+				t.Violatef("WrapV1(null-padded,ZeroLengthSectionAsEOF)/index/records-differ", "index of the wrapped null-padded source differs from a reference scan (%v)", perr)
+			}
+		}
+	}
+
 	// ---------------- extract
 	v2variants := map[string][]byte{}
 	if wrapped != nil {
@@ -124,7 +147,7 @@ func runC10(t *mon.T, raw json.RawMessage) {
 	v2variants["indexless"] = refcar.EncodeV2(x, refcar.V2Opts{DataPadding: uint64(r.Intn(3))})
 	v2variants["index-nopad"] = refcar.EncodeV2(x, refcar.V2Opts{Index: idxb})
 	for vn, v2 := range v2variants {
-		for _, state := range []string{"absent", "larger-existing", "smaller-existing", "in-place"} {
+		for _, state := range []string{"absent", "larger-existing", "smaller-existing", "in-place", "in-place-alias-path", "in-place-symlink", "in-place-hardlink"} {
 			src := filepath.Join(dir, "e-src.car")
 			dst := filepath.Join(dir, "e-dst.car")
 			os.Remove(dst)
@@ -139,6 +162,20 @@ func runC10(t *mon.T, raw json.RawMessage) {
 				mustWrite(dst, gen.Bytes(r, r.Intn(len(x))))
 			case "in-place":
 				dst = src
+			case "in-place-alias-path":
+				dst = filepath.Dir(src) + "/./" + filepath.Base(src) // the same file under another spelling
+			case "in-place-symlink":
+				dst = filepath.Join(dir, "e-link.car")
+				os.Remove(dst)
+				if err := os.Symlink(src, dst); err != nil {
+					panic(err)
+				}
+			case "in-place-hardlink":
+				dst = filepath.Join(dir, "e-hard.car")
+				os.Remove(dst)
+				if err := os.Link(src, dst); err != nil {
+					panic(err)
+				}
 			}
 			err := carv2.ExtractV1File(src, dst)
 			t.Events(1)
@@ -152,7 +189,7 @@ func runC10(t *mon.T, raw json.RawMessage) {
 			if !bytes.Equal(got, x) {
 				t.Violatef(key+"/payload-differs", "ExtractV1File(%s, %s) produced %d bytes, payload has %d; first difference at %d", vn, state, len(got), len(x), lab.FirstDiff(got, x))
 			}
-			if state != "in-place" && !bytes.Equal(mustRead(src), v2) {
+			if !strings.HasPrefix(state, "in-place") && !bytes.Equal(mustRead(src), v2) {
 				t.Violatef(key+"/source-modified", "ExtractV1File modified its source")
 			}
 		}
@@ -254,10 +291,10 @@ func init() {
 	Register(&mon.Check{
 		ID:          "C10",
 		Level:       "exploration",
-		Rule:        "cases = seeded CARv1 payloads x; per case: WrapV1 (option matrix) and WrapV1File (fresh and over a larger file), ExtractV1File of 4 CARv2 renderings (wrap(x), padded+index, index-less, index without padding) into 4 destination states (absent, larger, smaller, in place), ExtractV1File of a CARv1, ReplaceRootsInFile on v1/padded v2/index-less v2 with 5-6 replacement root lists of equal and different encoded size; pure byte comparisons",
+		Rule:        "cases = seeded CARv1 payloads x; per case: WrapV1 (option matrix) and WrapV1File (fresh and over a larger file), ExtractV1File of 4 CARv2 renderings (wrap(x), padded+index, index-less, index without padding) into 7 destination states (absent, larger, smaller, in place, and in place through another spelling of the path, a symlink and a hard link), WrapV1 of a null-padded source with ZeroLengthSectionAsEOF, ExtractV1File of a CARv1, ReplaceRootsInFile on v1/padded v2/index-less v2 with 5-6 replacement root lists of equal and different encoded size; pure byte comparisons",
 		Assumptions: []string{"reference encoder (refcar) for CARv2 renderings and spliced headers"},
 		Gen:         genC10,
 		Run:         runC10,
-		MinCover:    map[string]int{"wrap": 50, "extract:in-place": 50, "extract:larger-existing": 50, "replace-roots:same-size": 50, "replace-roots:different-size": 50, "wrapfile-over-larger-file": 10},
+		MinCover:    map[string]int{"wrap": 50, "extract:in-place": 50, "extract:larger-existing": 50, "replace-roots:same-size": 50, "replace-roots:different-size": 50, "wrapfile-over-larger-file": 10, "wrap-null-padded-source": 50, "extract:in-place-symlink": 50, "extract:in-place-hardlink": 50},
 	})
 }
